@@ -58,6 +58,54 @@ pub fn operator_of(o: &Value) -> TextSelectionOperator {
     }
 }
 
+/// one relation test: singleton vs singleton through test(), otherwise through the set variants
+fn relation_cell<'a>(o: &TextSelectionOperator, sa: Vec<ResultTextSelection<'a>>, sb: Vec<ResultTextSelection<'a>>) -> bool {
+    if sb.is_empty() {
+        return false;
+    }
+    if sa.len() == 1 && sb.len() == 1 {
+        sa[0].test(o, &sb[0])
+    } else if sa.len() == 1 {
+        let setb: ResultTextSelectionSet = sb.into_iter().collect();
+        sa[0].test_set(o, &setb)
+    } else if sb.len() == 1 {
+        let seta: ResultTextSelectionSet = sa.into_iter().collect();
+        seta.test(o, &sb[0])
+    } else {
+        let seta: ResultTextSelectionSet = sa.into_iter().collect();
+        let setb: ResultTextSelectionSet = sb.into_iter().collect();
+        seta.test_set(o, &setb)
+    }
+}
+
+/// regular expression text of an abstract pattern (sequence of groups of literal alternatives)
+fn regex_of(pat: &Value) -> String {
+    let mut s = String::new();
+    for g in pat.as_array().expect("harness: pattern") {
+        let alts: Vec<Vec<i64>> = serde_json::from_value(g["alts"].clone()).expect("harness: alts");
+        let body: Vec<String> = alts.iter().map(|x| regex_escape(&text_of(x))).collect();
+        s.push_str(if g["cap"].as_bool().unwrap_or(false) { "(" } else { "(?:" });
+        s.push_str(&body.join("|"));
+        s.push(')');
+        if g["opt"].as_bool().unwrap_or(false) {
+            s.push('?');
+        }
+    }
+    s
+}
+
+fn regex_escape(t: &str) -> String {
+    let mut out = String::new();
+    for c in t.chars() {
+        if "\\.+*?()|[]{}^$#&-~ \n".contains(c) {
+            out.push_str(&format!("\\x{{{:x}}}", c as u32));
+        } else {
+            out.push(c);
+        }
+    }
+    out
+}
+
 enum Cont<'a> {
     Res(ResultItem<'a, TextResource>),
     Sel(ResultTextSelection<'a>),
@@ -175,6 +223,8 @@ pub fn read(ctx: &Ctx, op: &Op) -> (String, i64, Value) {
                 let chars: Vec<char> = needle.chars().collect();
                 let opn = a["op"].as_str().unwrap_or("");
                 let cont = container(store, &a["c"], style);
+                let mut groups: Vec<i64> = Vec::new();
+                let mut okflag = true;
                 let ranges: Option<Value> = match (&cont, opn) {
                     (Cont::None, _) => None,
                     (Cont::Res(r), "find") => Some(ranges_json(r.find_text(&needle))),
@@ -187,11 +237,51 @@ pub fn read(ctx: &Ctx, op: &Op) -> (String, i64, Value) {
                     (Cont::Sel(s), "trim") => s.trim_text(&chars).ok().map(|t| ranges_json(std::iter::once(t))),
                     (Cont::Res(r), "segmentation") => Some(ranges_json(r.segmentation())),
                     (Cont::Sel(s), "segmentation") => Some(ranges_json(s.segmentation())),
+                    (_, "regex") => {
+                        let re = Regex::new(&regex_of(&a["pat"])).expect("harness: regex");
+                        let exprs = [re];
+                        let matches: Option<Vec<FindRegexMatch>> = match &cont {
+                            Cont::Res(r) => r.find_text_regex(&exprs, None, false).ok().map(|it| it.collect()),
+                            Cont::Sel(s) => s.find_text_regex(&exprs, None, false).ok().map(|it| it.collect()),
+                            Cont::None => None,
+                        };
+                        matches.map(|ms| {
+                            let mut out = Vec::new();
+                            for m in ms.iter() {
+                                for t in m.textselections() {
+                                    out.push(json!([t.begin(), t.end()]));
+                                }
+                                for g in m.capturegroups() {
+                                    groups.push(*g as i64);
+                                }
+                            }
+                            Value::Array(out)
+                        })
+                    }
+                    (_, "sequence") | (_, "sequence_nocase") => {
+                        let frags: Vec<Vec<i64>> = serde_json::from_value(a["frags"].clone()).unwrap_or_default();
+                        let frags: Vec<String> = frags.iter().map(|f| text_of(f)).collect();
+                        let frefs: Vec<&str> = frags.iter().map(|f| f.as_str()).collect();
+                        let cs = opn == "sequence";
+                        let skip = |c: char| chars.contains(&c);
+                        let found = match &cont {
+                            Cont::Res(r) => r.find_text_sequence(&frefs, skip, cs),
+                            Cont::Sel(s) => s.find_text_sequence(&frefs, skip, cs),
+                            Cont::None => None,
+                        };
+                        match found {
+                            Some(v) => Some(ranges_json(v.into_iter())),
+                            None => {
+                                okflag = false;
+                                Some(json!([]))
+                            }
+                        }
+                    }
                     _ => panic!("harness: unknown text op {}", opn),
                 };
                 match ranges {
-                    Some(r) => (0, json!({"ok": true, "ranges": r})),
-                    None => (0, json!({"ok": false, "ranges": []})),
+                    Some(r) => (0, json!({"ok": okflag, "ranges": r, "groups": groups})),
+                    None => (0, json!({"ok": false, "ranges": [], "groups": []})),
                 }
             }
             "TestRelation" => {
@@ -220,6 +310,65 @@ pub fn read(ctx: &Ctx, op: &Op) -> (String, i64, Value) {
                 match v {
                     Some(v) => (0, json!({"ok": true, "v": v})),
                     None => (0, json!({"ok": false, "v": false})),
+                }
+            }
+            "TestRelationRow" => {
+                let o = operator_of(&a["o"]);
+                let res = store.resource(bi::<TextResource>(&rf(&a["res"]), style));
+                let v: Option<Vec<String>> = res.and_then(|res| {
+                    let sa = tsel_set(&res, &a["A"])?;
+                    if sa.is_empty() {
+                        return None;
+                    }
+                    let mut cells = Vec::new();
+                    for b in a["Bs"].as_array()? {
+                        let sb = tsel_set(&res, b)?;
+                        let sa = sa.clone();
+                        // a panic in one cell is data for that cell only
+                        let cell = catch_unwind(AssertUnwindSafe(|| relation_cell(&o, sa, sb)));
+                        cells.push(match cell {
+                            Ok(true) => "T".to_string(),
+                            Ok(false) => "F".to_string(),
+                            Err(_) => "P".to_string(),
+                        });
+                    }
+                    Some(cells)
+                });
+                match v {
+                    Some(v) => (0, json!({"ok": true, "v": v})),
+                    None => (0, json!({"ok": false, "v": []})),
+                }
+            }
+            "RelatedRow" => {
+                let res = store.resource(bi::<TextResource>(&rf(&a["res"]), style));
+                let via = a["via"].as_str().unwrap_or("sel");
+                let rows: Option<Vec<Value>> = res.and_then(|res| {
+                    let mut rows = Vec::new();
+                    for ov in a["os"].as_array()? {
+                        let o = operator_of(ov);
+                        let row = if via == "ann" {
+                            let ann = store.annotation(bi::<Annotation>(&rf(&a["ann"]), style))?;
+                            ann.textselections().next()?;
+                            ranges_json(ann.related_text(o))
+                        } else {
+                            let sa = tsel_set(&res, &a["A"])?;
+                            if sa.is_empty() {
+                                return None;
+                            }
+                            if sa.len() == 1 {
+                                ranges_json(sa[0].related_text(o))
+                            } else {
+                                let seta: ResultTextSelectionSet = sa.into_iter().collect();
+                                ranges_json(seta.related_text(o))
+                            }
+                        };
+                        rows.push(row);
+                    }
+                    Some(rows)
+                });
+                match rows {
+                    Some(r) => (0, json!({"ok": true, "rows": r})),
+                    None => (0, json!({"ok": false, "rows": []})),
                 }
             }
             "RelatedText" => {
@@ -252,4 +401,5 @@ pub fn read(ctx: &Ctx, op: &Op) -> (String, i64, Value) {
 }
 
 pub const READ_EVENTS: &[&str] =
-    &["Lookup", "TextSel", "AnnTextOf", "OffsetReport", "Utf8Byte", "ByteToChar", "TextOp", "TestRelation", "RelatedText"];
+    &["Lookup", "TextSel", "AnnTextOf", "OffsetReport", "Utf8Byte", "ByteToChar", "TextOp", "TestRelation", "RelatedText",
+      "TestRelationRow", "RelatedRow"];
